@@ -11,7 +11,7 @@ RS = " Also rule RS: derived-state coherence dataflow (a memoised/derived attrib
 
 CHECKS = {
     "C01": (AI + " + sign domain on slice bounds + truth-table Boolean equality",
-            "Decides, for every input, the time-metadata algebra of every cropping site (start_time' = start_time + clamp(start)/sample_rate with CPython's slice.indices clamp, sample_rate' = sample_rate/step, stop_time, dt, the Boolean form of contains), that a signal without start time never acquires one, the crop ledgers of fast_len and time_shift(crop=True), and that every signal-level slice bound computed by library code is non-negative. Rule NT: the same scenario evaluated with Python numbers and with NumPy scalars (numpy.int64 is not an int, numpy.float32 is not a float) gives the same outcome. The time ledger of every cropping operation (incl. incoherent dedispersion) does not depend on the unit a Quantity argument is held in. Not decided: floating-point rounding of astropy Time arithmetic." + RS,
+            "Decides, for every input, the time-metadata algebra of every cropping site (start_time' = start_time + clamp(start)/sample_rate with CPython's slice.indices clamp, sample_rate' = sample_rate/step, stop_time, dt, the Boolean form of contains), that a signal without start time never acquires one, the crop ledgers of fast_len and time_shift(crop=True), and that every signal-level slice bound computed by library code is non-negative. Rule NT: the same scenario evaluated with Python numbers and with NumPy scalars (numpy.int64 is not an int, numpy.float32 is not a float) gives the same outcome. The time ledger of every cropping operation (incl. incoherent dedispersion) does not depend on the unit a Quantity argument is held in. Not decided: floating-point rounding of astropy Time arithmetic. The in operator of signals and readers (__contains__) is held to the same Boolean normal form as contains()." + RS,
             "real-number semantics for formulas; API table for numpy/astropy; expected terms transcribed from the property statement", "4/C01"),
     "C02": (AI + "; small-scope exhaustive enumeration of channel counts and slice bounds",
             "Decides the channel-label formula for all alignments and both parities (every radio class built through its own constructor chain, and after assigning freq_align through the setter), band edges, and that the labels of a frequency slice, of repeated/combined slices, of a trailing-axis selection and of a Stokes component selected by name - read back through the package's own channel_freqs property - equal the selected labels of the original. The frequency metadata of a slice is never re-cast to a narrower dtype. Rule NT: the same scenario evaluated with Python numbers and with NumPy scalars (numpy.int64 is not an int, numpy.float32 is not a float) gives the same outcome. Not decided: Quantity round-off." + RS,
@@ -35,7 +35,7 @@ CHECKS = {
             "Decides that from_polyco builds exactly the tempo polynomial (all coefficient counts, D/E exponents, reference phase split, 60*F0, domain scale), TMID precision (text or two doubles into Time), scalar/array branch agreement for any index order, derivative order and unit, range-check acceptance condition and dominance (also over the row lookup inside _get_index_and_dt), interval merging on concrete tables, that prediction methods never write the table, that the constructor hands the entries to the table in ascending TMID order whatever order they arrive in (the binary search over span ends relies on it). phasepol is evaluated on the polynomial exactly as from_polyco stores it; the functions time_at hands to the root finder look their argument up in the table. Not decided: 1e-8 accuracy of polynomial evaluation, root-finder convergence." + RS,
             "numpy.polynomial.Polynomial(domain=) semantics from the API table", "4/C08"),
     "C09": ("laziness taint analysis (forcing sinks) + " + AI + " on NumPy- and Dask-tagged signals + structural rules on graph keys and read splitting",
-            "Decides that no signal method/transform forces a possibly-Dask value outside the sanctioned explicit points, that every public operation builds the same term with the same class/metadata on both back ends and stays Dask-backed, declared dtype/shape of delayed results, that a hand-written Dask token or an explicit name= of a delayed bound method contains the object's identity or state, that a lazy read wraps the same single read as the eager one, that no deferred callable captures a loop variable by reference and no mutable default argument is mutated, that the data parameter of every signal constructor is not forced, that Dask arrays created inside FFT-based transforms are one chunk along the transformed axis, that a Dask-backed out=/in-place target ends up as the NumPy-backed one would (a refused multi-output call leaves every target untouched), that Dask data of unknown extent is accepted by the constructors. Lazy-read declarations (dtype, shape) against what the wrapped read returns; ufunc operands and options are possibly lazy in the taint analysis. Not decided: scheduler independence, chunk-layout acceptance, bitwise value equality." + RS,
+            "Decides that no signal method/transform forces a possibly-Dask value outside the sanctioned explicit points, that every public operation builds the same term with the same class/metadata on both back ends and stays Dask-backed, declared dtype/shape of delayed results, that a hand-written Dask token or an explicit name= of a delayed bound method contains the object's identity or state, that a lazy read wraps the same single read as the eager one, that no deferred callable captures a loop variable by reference and no mutable default argument is mutated, that the data parameter of every signal constructor is not forced, that Dask arrays created inside FFT-based transforms are one chunk along the transformed axis, that a Dask-backed out=/in-place target ends up as the NumPy-backed one would (a refused multi-output call leaves every target untouched), that Dask data of unknown extent is accepted by the constructors. Lazy-read declarations (dtype, shape) against what the wrapped read returns; ufunc operands and options are possibly lazy in the taint analysis. Not decided: scheduler independence, chunk-layout acceptance, bitwise value equality. A Dask-backed out= target of shape (N, 1) must refuse a (N, 4) result like NumPy does." + RS,
             "API table of dispatching vs forcing numpy functions, re-validated against installed dask/numpy by introspection", "4/C09"),
     "C10": (AI + " reading path facts at the join",
             "Decides (also for pieces with zero samples in time, joined along frequency) that for every piece the sample-rate, channel-bandwidth, type, time-contiguity (cumulative), equal-start and equal/adjacent-label conditions are facts of the accepting path, the result's start time, data term, labels read back and override set, definite refusals. Rule NT: the same scenario evaluated with Python numbers and with NumPy scalars (numpy.int64 is not an int, numpy.float32 is not a float) gives the same outcome. Not decided: isclose tolerances." + RS,
@@ -47,19 +47,19 @@ CHECKS = {
             "Decides normalisation of t in all three forms (scale-aware Time difference), rejection guards, that shift, new start and final slice compose to start_time + t/sample_rate with exactly n samples (also for integer-dtype real data: no truncating cast), integer t takes the plain slice. Rule NT: the same scenario evaluated with Python numbers and with NumPy scalars (numpy.int64 is not an int, numpy.float32 is not a float) gives the same outcome. Not decided: interpolation accuracy; floating-point round-off of the bounds test for durations." + RS,
             "real-number semantics", "4/C12"),
     "C13": (AI + " over complex symbols with explicit polarisation components",
-            "Decides that a refused basis label leaves the old one, and all conversion and Stokes identities per branch (definitions of L/R, inverse, power, basis independence, I^2=Q^2+U^2+V^2, I=sum of intensities, component access by name on the Stokes axis also with trailing dimensions), whichever formulation (explicit formulas, matrix product, tensordot) the source uses. Both complex widths; the identity path returns a new object like the converting path. Not decided: float rounding." + RS,
+            "Decides that a refused basis label leaves the old one, and all conversion and Stokes identities per branch (definitions of L/R, inverse, power, basis independence, I^2=Q^2+U^2+V^2, I=sum of intensities, component access by name on the Stokes axis also with trailing dimensions), whichever formulation (explicit formulas, matrix product, tensordot) the source uses. Both complex widths; the identity path returns a new object like the converting path. Not decided: float rounding. The attributes stokesI..stokesV are evaluated next to s[name] (same class, labels, data); a memo fed from the sample buffer through an in-package __getitem__ is reported by rule RS." + RS,
             "sympy", "4/C13"),
     "C14": ("inter-procedural may-alias (ownership) analysis with mutation sinks, function summaries and memoised-result roots",
             "Decides, for every input, that no library statement writes to anything that may alias an argument's object, buffer or metadata, or an object kept by a memo table (private derived attributes of self are sanctioned and handed to rule RS; overwrite_* options of third-party routines are sinks; __array__(copy=True) returns fresh storage; stores into the elements of an explicit out= tuple are the sanctioned mutation)." + RS,
             "view/copy table for numpy/astropy/dask; third-party code does not write its inputs unless listed", "4/C14"),
     "C15": (AI + " on the Phase model; IEEE-double evaluation of association-preserving terms on near-tie vectors; constant folding of concrete doubles for renderings",
-            "Decides that comparisons and argmin/argmax difference the parts before adding (and select the exact extremum in doubles), lexsort keys, that min/max/sort select by the flat index in logical order and that the index producers flatten in logical C order, that the per-axis indices select along their own axis for every axis number (0 included), decimal parsing of 600+ spellings exactly and of 23 spellings in IEEE doubles (nothing raises, parts within 2^-52), refusal of 20 non-decimal strings, from_string kind consistency (whole-number imaginary strings included), to_string and fixed-point format() renderings of dyadic and sub-resolution values (sign of values in (-1, 0) included) and the round trip. Fixed-point format of imaginary phases shows the requested decimals; a Phase re-created from plain array data is given its real/imaginary kind. Not decided: renderings of arbitrary non-dyadic fractions." + RS,
+            "Decides that comparisons and argmin/argmax difference the parts before adding (and select the exact extremum in doubles), lexsort keys, that min/max/sort select by the flat index in logical order and that the index producers flatten in logical C order, that the per-axis indices select along their own axis for every axis number (0 included), decimal parsing of 600+ spellings exactly and of 23 spellings in IEEE doubles (nothing raises, parts within 2^-52), refusal of 20 non-decimal strings, from_string kind consistency (whole-number imaginary strings included), to_string and fixed-point format() renderings of dyadic and sub-resolution values (sign of values in (-1, 0) included) and the round trip. Fixed-point format of imaginary phases shows the requested decimals; a Phase re-created from plain array data is given its real/imaginary kind. Not decided: renderings of arbitrary non-dyadic fractions. Each comparison ufunc is also evaluated in its out= form (Phase, Phase, out=mask) under the same no-fallback obligation." + RS,
             "numpy.lexsort key order; CPython/NumPy shortest-repr of doubles", "4/C15"),
     "C16": (AI + " of constructors and setters on tables of valid/invalid arguments + who-may-write tables + signature agreement",
             "Decides that every metadata setter validates before storing and converts failures to ValueError (also on both arms of undecided tests, on even and odd channel counts), constructor shape/dtype contracts incl. byte order, baseband chan_bw tied to sample_rate at creation and by every library operation evaluated, like()/container helpers reproduce every state attribute, private fields written only by their setter/constructor (or re-validated through the constructor of the target's own class), a Dask-backed out=/in-place target keeps a dtype of its class, no pickling hooks." + RS,
             "astropy validators behave as documented; numpy casting table by introspection", "4/C16"),
     "C17": (AI + " of __array_ufunc__ with an abstract ufunc + protocol signature rules",
-            "Decides refusal of non-call methods and matmul before unwrapping, that signals among inputs/outs are replaced by their data and every other operand reaches the ufunc untouched (Python scalars stay scalars, Quantities keep their class), single call, kwargs forwarded (also together with out=), the promoted result dtype kept by the wrapper, rewrap in the dispatching signal's class or return of the given out object, Dask-backed out= targets left as NumPy would leave them (own dtype, or TypeError), __array__ protocol incl. copy=True returning a new array. An out= target of another signal class than the operand is validated by its own class. Not decided: per-ufunc values." + RS,
+            "Decides refusal of non-call methods and matmul before unwrapping, that signals among inputs/outs are replaced by their data and every other operand reaches the ufunc untouched (Python scalars stay scalars, Quantities keep their class), single call, kwargs forwarded (also together with out=), the promoted result dtype kept by the wrapper, rewrap in the dispatching signal's class or return of the given out object, Dask-backed out= targets left as NumPy would leave them (own dtype, or TypeError), __array__ protocol incl. copy=True returning a new array. An out= target of another signal class than the operand is validated by its own class. Not decided: per-ufunc values. Plans with operands of different signal classes (every signal among the inputs is unwrapped whichever class dispatches) and a Dask out= target whose sample axis is narrower than the result (refused with ValueError)." + RS,
             "NumPy __array_ufunc__/__array__ protocol", "4/C17"),
     "C19": (AI + " on explicit arrays of symbols with exact DFT sums",
             "Decides the definition for N = 1..9 (16 thorough) and ranks 1-3 on every axis: out[m] = (-1)^m analytic(x)[2m] with the one-sided weights, (-1)^m Re(out[m]) = x[2m], ceil(N/2) samples, other axes in place (also when empty), whatever transform pair is used; the symbolic-N result term, a double-precision mixer ramp whatever the data's precision, dtype rule, refusals, the factor-2 agreement with the readers, no overwrite_* option on caller data, no process-wide hook (scipy.fft backend registration, monkey-patching) installed by the package. The dtype rule on the main path for narrow and integer dtypes. Not decided: FFT round-off; N beyond the enumerated range is covered by the symbolic term rule only for the fft/ifft formulation." + RS,
